@@ -77,7 +77,8 @@ PROPS["C02"] = {
             P("test", "VerifShardedDir", lg=4, entries=2, maxdepth=2),
             P("test", "VerifShardedDir", lg=3, entries=2, maxdepth=3),
             P("test", "VerifShardedDir", lg=3, entries=2, maxdepth=2, small=0),
-            P("test", "VerifDeepChain", must_reach=("end", "too-deep", "deep-ok")),
+            P("data/builder", "VerifBuilderDeepChain", must_reach=("end", "too-deep", "deep-ok")),
+                     P("hamt", "VerifReaderDeepChain", must_reach=("end", "too-deep", "deep-ok")),
             P("test", "VerifPlainDirMap", entries=4),
             P("test", "VerifHamtReaderWellFormed", must_reach=("end", "member", "non-member", "iterate")),
         ],
@@ -186,7 +187,8 @@ PROPS["C08"] = {
                      P("data/builder", "VerifBuilderSlice", must_reach=("end", "too-deep")),
                      P("hamt", "VerifHashBitsNext", must_reach=("end", "too-deep")),
                      P("data/builder", "VerifFormatLinkName"),
-                     P("test", "VerifDeepChain", must_reach=("end", "too-deep", "deep-ok")),
+                     P("data/builder", "VerifBuilderDeepChain", must_reach=("end", "too-deep", "deep-ok")),
+                     P("hamt", "VerifReaderDeepChain", must_reach=("end", "too-deep", "deep-ok")),
                      P("test", "VerifHamtReaderWellFormed", must_reach=("end", "member", "non-member", "iterate"))],
     },
     "bounds": {"quick": "builder output == refHAMT (structure, link names, bitfield without leading zero bytes, Tsizes, returned size) for 2 entries, fanout 8, depth<=2; bit-slice and link-name kernels over all values; reader on hand-built locally well-formed, non-canonical shard trees (what insert/remove histories leave behind)",
@@ -365,9 +367,10 @@ PROPS["C18"] = {
 # ---------------------------------------------------------------- C19
 PROPS["C19"] = {
     "programs": {"quick": [P("testutil", "VerifFixtureGenerators", must_reach=("end", "unixfs-directory", "custom-generator"), target=2048, freecoins=5, freenames=1),
+                           P("testutil", "VerifFixtureGenerators", must_reach=("end", "unixfs-directory", "custom-generator"), target=2048, freecoins=0, freenames=3),
                            P("testutil", "VerifFixtureFile")]},
     "native_any_label": True,
-    "bounds": {"quick": "UnixFSDirectory (default, sharded bit-width 3, custom child generator), GenerateDirectory (plain/sharded), UnixFSFile sizes 0..3, BuildDirectory; target size 2048; the first 5 dice and the first generated name are explorer-chosen (every value), later draws are scripted (file, largest size, fresh name)"},
+    "bounds": {"quick": "UnixFSDirectory (default, sharded bit-width 3, custom child generator), GenerateDirectory (plain/sharded), UnixFSFile sizes 0..3, BuildDirectory; target size 2048; the first 5 dice and the first generated name are explorer-chosen (every value) — and, in a second program, the first 3 generated names (so repeated draws of one name arise) —, later draws are scripted (file, largest size, fresh name)"},
     "assumptions": ["crypto/rand.Int and namegen are replaced by a scripted source (their draws are the symbolic inputs); native replay runs the real generators with a math/rand stream and accepts any failing assertion as confirmation"],
     "outside": "WrapContent with non-exclusive random siblings; larger target sizes",
 }
